@@ -653,12 +653,12 @@ fn main() {
         match rx.recv_timeout(std::time::Duration::from_millis(timeout_ms)) {
             Ok(r) => {
                 let mut o = stdout.lock();
-                let _ = writeln!(o, "{}", r);
+                let _ = writeln!(o, "@@{}", r);
                 let _ = o.flush();
             }
             Err(std::sync::mpsc::RecvTimeoutError::Timeout) => {
                 let mut o = stdout.lock();
-                let _ = writeln!(o, "{{\"status\":\"timeout\"}}");
+                let _ = writeln!(o, "@@{{\"status\":\"timeout\"}}");
                 let _ = o.flush();
                 // the worker cannot be cancelled: leave, the driver restarts us
                 std::process::exit(3);
@@ -666,7 +666,7 @@ fn main() {
             Err(_) => {
                 // worker died without answering (stack overflow aborts the process before this)
                 let mut o = stdout.lock();
-                let _ = writeln!(o, "{{\"status\":\"panic\",\"where\":\"-\"}}");
+                let _ = writeln!(o, "@@{{\"status\":\"panic\",\"where\":\"-\"}}");
                 let _ = o.flush();
             }
         }
